@@ -83,7 +83,11 @@ def _case(draw):
         conns.append({'requests': reqs, 'cuts': draw(gens.cuts()) if variant == 'stream' else ['frames']})
     merge = draw(st.lists(st.integers(0, nconn - 1), min_size=0, max_size=20))
     return {'variant': variant, 'framing': framing, 'single': single, 'hosted': hosted,
-            'ignore_missing_slaves': draw(st.booleans()), 'conns': conns, 'merge': merge}
+            'ignore_missing_slaves': draw(st.booleans()), 'conns': conns, 'merge': merge,
+            # stream: idle receive time-outs (only taken at points where that connection has no partial frame pending);
+            # datagram: which datagrams arrive back to back, before the server gets a turn
+            'idle': draw(st.lists(st.integers(0, 30), min_size=0, max_size=3)),
+            'burst': draw(st.lists(st.booleans(), min_size=0, max_size=12))}
 
 
 def strategy(tier):
@@ -129,7 +133,27 @@ def _script(case):
             if i >= done[k] and delivered[k] >= end:
                 completion.append((k, i))
                 done[k] = i + 1
-    return script, completion, frames
+    # decorate: idle time-outs at frame-aligned points (stream), burst flags (datagram)
+    out = []
+    delivered = [0] * len(frames)
+    bounds = []
+    for fs in frames:
+        b, acc = set([0]), 0
+        for f in fs:
+            acc += len(f)
+            b.add(acc)
+        bounds.append(b)
+    idle = set(case.get('idle', []))
+    burst = list(case.get('burst', []))
+    for n, (k, chunk) in enumerate(script):
+        if case['variant'] == 'stream' and n in idle and delivered[k] in bounds[k]:
+            out.append((k, None))
+        delivered[k] += len(chunk)
+        if case['variant'] == 'datagram' and n < len(burst) and burst[n] and n + 1 < len(script):
+            out.append((k, chunk, 'burst'))
+        else:
+            out.append((k, chunk))
+    return out, completion, frames
 
 
 def run_case(case):
@@ -174,6 +198,10 @@ def run_case(case):
         if any(any(b in (0x7B, 0x7D) for b in f[1:-1]) for f in allf):
             return Outcome([], labels + ['excluded-binary-delimiter'], False)
     interleaved = len(case['conns']) >= 2 and any(script[i][0] != script[i + 1][0] for i in range(len(script) - 1))
+    if any(len(it) > 2 for it in script):
+        labels.append('burst')
+    if any(it[1] is None for it in script):
+        labels.append('idle-timeout')
     # ---- run every front-end of the variant
     fes = STREAM_FES if case['variant'] == 'stream' else DGRAM_FES
     results = {}
